@@ -76,7 +76,7 @@ func (c *Ctx) entryPoints(pkg string) []*ssa.Function {
 		}
 		internal := false
 		for _, ci := range c.CallersOf(fn) {
-			if fnPkgPath(ci.Parent()) == pkg && ci.Parent().Synthetic == "" {
+			if fnPkgPath(origin(ci.Parent())) == pkg && (ci.Parent().Synthetic == "" || strings.HasPrefix(ci.Parent().Synthetic, "instance of")) {
 				internal = true
 			}
 		}
@@ -416,18 +416,36 @@ func ruleR15b(c *Ctx, rule string) {
 	c.check(counted, rule, "tryLock:read-locks-counted", tryLock.Pos(), "each read acquisition increments the per-account counter", "tryLock does not count read holders: the first reader to leave would release the account for writers while others still read")
 	// unlock mirrors
 	dels := map[pair]*ssa.Call{}
-	allCalls(unlock, func(ci ssa.CallInstruction) {
-		call, ok := ci.(*ssa.Call)
-		if !ok {
-			return
+	// unlock and the helpers of the package it delegates to (`free`)
+	unlockFns := []*ssa.Function{unlock}
+	{
+		seenU := map[*ssa.Function]bool{unlock: true}
+		for i := 0; i < len(unlockFns) && i < 8; i++ {
+			allCalls(unlockFns[i], func(ci ssa.CallInstruction) {
+				if g := staticCallee(ci); g != nil && fnPkgPath(g) == pkgCommand && len(g.Blocks) > 0 && !seenU[g] && g != tryLock {
+					seenU[g] = true
+					unlockFns = append(unlockFns, g)
+				}
+			})
 		}
-		if bi, ok := call.Call.Value.(*ssa.Builtin); ok && bi.Name() == "delete" {
-			p := pair{keyField(call.Call.Args[1]), mapField(call.Call.Args[0])}
-			if p.acc != "" && p.m != "" {
-				dels[p] = call
+	}
+	delFn := map[*ssa.Call]*ssa.Function{}
+	for _, uf := range unlockFns {
+		uf := uf
+		allCalls(uf, func(ci ssa.CallInstruction) {
+			call, ok := ci.(*ssa.Call)
+			if !ok {
+				return
 			}
-		}
-	})
+			if bi, ok := call.Call.Value.(*ssa.Builtin); ok && bi.Name() == "delete" {
+				p := pair{keyField(call.Call.Args[1]), mapField(call.Call.Args[0])}
+				if p.acc != "" && p.m != "" {
+					dels[p] = call
+					delFn[call] = uf
+				}
+			}
+		})
+	}
 	var delNames []string
 	for p := range dels {
 		delNames = append(delNames, p.acc+"->"+p.m)
@@ -469,7 +487,7 @@ func ruleR15b(c *Ctx, rule string) {
 				return s
 			},
 		}
-		c.RunPaths(unlock, 0, pr)
+		c.RunPaths(delFn[d], 0, pr)
 		if guarded {
 			c.ok(rule, "unlock:read-entry-deleted-at-zero", d.Pos(), "delete(readLocks, account) only on the edge Add(-1) == 0")
 		}
